@@ -20,7 +20,31 @@ Say(n, q, clause) == PrintT(<<"R", "registry", n, q, clause>>)
 SemOfObs(ob) == <<ob.sem[1], ob.sem[2], ob.sem[3]>>
 SemT(sp) == LET f == Sem(sp) IN <<f[1], f[2], f[3]>>
 
-RECURSIVE RunH(_, _, _, _), RunC(_, _, _, _, _)
+RECURSIVE RunH(_, _, _, _), RunC(_, _, _, _, _), RunA(_, _, _, _, _, _)
+V4(x) == <<x[1], x[2], x[3], x[4]>>
+\* machine "alias": obs = [out, sem, cli, object, file (acceptance on the four probes), econt (the content the type's expression text shows)]
+RunA(n, q, atypes, keysA, namesA, cur) ==
+  LET b == Data[n] IN
+  IF q > Len(b.ops) THEN TRUE
+  ELSE LET o == b.ops[q]  ob == b.obs[q] IN
+       IF o.op = "mutate" THEN RunA(n, q + 1, atypes, keysA, namesA, AMutate(cur, o.h))
+       ELSE IF o.op = "createa" THEN
+         LET R == RefCreateA(atypes, o.name, cur)
+             a == AlgCreateA(keysA, namesA, o.name, cur)
+         IN /\ (ob.out \in R /\ (ob.out = "raise" \/ V4(ob.sem) = V4(ASem(cur)))) \/ Say(n, q, "ref-alias-create")
+            /\ (ob.out = a.out) \/ Say(n, q, "alg-create")
+            /\ (ob.out # a.out \/ ob.out = "raise" \/ ob.econt = a.cont) \/ Say(n, q, "ref-alias-expression")
+            /\ RunA(n, q + 1, IF a.out = "new" THEN atypes \cup {[name |-> o.name, cont |-> cur]} ELSE atypes, a.keys, a.names, cur)
+       ELSE
+         LET known == \E ty \in atypes : ty.name = o.name
+             rc == IF known THEN RefProbeA(atypes, o.name) ELSE << >>
+         IN /\ known \/ Say(n, q, "alg-probe-unknown")
+            /\ (~known \/ V4(ob.sem) = V4(ASem(rc))) \/ Say(n, q, "ref-alias-probe-direct")
+            /\ (~known \/ V4(ob.cli) = V4(ASem(rc))) \/ Say(n, q, "ref-alias-probe-cli")
+            /\ (~known \/ V4(ob.object) = V4(ASem(rc))) \/ Say(n, q, "ref-alias-probe-object")
+            /\ (~known \/ V4(ob.file) = V4(ASem(rc))) \/ Say(n, q, "ref-alias-probe-file")
+            /\ (~known \/ ob.econt = rc) \/ Say(n, q, "ref-alias-expression")
+            /\ RunA(n, q + 1, atypes, keysA, namesA, cur)
 RunH(n, q, rreg, ahs) ==
   LET b == Data[n] IN
   IF q > Len(b.ops) THEN TRUE
@@ -55,6 +79,7 @@ RunC(n, q, rtypes, akeys, anames) ==
 
 Check == IF tkind # "beh" THEN TRUE
          ELSE IF Data[tnum].mach = "handlers" THEN RunH(tnum, 1, [c \in UClasses |-> NoHandler], [c \in UClasses |-> NoObj])
+         ELSE IF Data[tnum].mach = "alias" THEN RunA(tnum, 1, {}, {}, {}, AContent0)
          ELSE RunC(tnum, 1, {}, {}, {})
 Inv == Check \/ TRUE
 =============================================================================
